@@ -1,7 +1,8 @@
 use mdk_core::prelude::*;
 use mdk_memory_storage::MdkMemoryStorage;
 use mdk_storage_traits::groups::Pagination;
-use nostr::Keys;
+use nostr::event::builder::EventBuilder;
+use nostr::{Keys, Kind};
 use scenarios::*;
 
 /// C06-O1b / C18-O3: listing with a huge offset returns a result instead of panicking (memory backend)
@@ -9,7 +10,9 @@ use scenarios::*;
 fn c06_memory_messages_offset_overflow() {
     let ck = Keys::generate();
     let c = MDK::new(MdkMemoryStorage::default());
-    let ((_ak, _a), (_bk, _b), gid) = three(&c, &ck);
+    let ((ak, a), (_bk, _b), gid) = three(&c, &ck);
+    let m = a.create_message(&gid, EventBuilder::new(Kind::Custom(9), "one").build(ak.public_key())).unwrap();
+    c.process_message(&m).unwrap();
     let r = std::panic::catch_unwind(std::panic::AssertUnwindSafe(|| c.get_messages(&gid, Some(Pagination::new(Some(1), Some(usize::MAX))))));
     assert!(r.is_ok(), "get_messages(limit=1, offset=usize::MAX) panicked");
     assert!(r.unwrap().unwrap().is_empty());
